@@ -12,7 +12,7 @@ META = {
                    'second translate undoes the first, and source and destination row slices have the same length; R15.3 neither the function '
                    'nor its callbacks read transform, clip_stack or layer_stack; R15.4 copy_surface = copy_from_slice(src->dst), '
                    'blend_surface = build_blend_proc::<BlendRow>(blend)(src, dst), blend_surface_with_alpha = over_in_row(src, dst, alpha byte).',
-    'decides': ['R15.1 clamp chain and emptiness guard', 'R15.2 placement consistency of clipping and copying', 'R15.3 isolation from transform/clip/layers', 'R15.4 wrapper semantics', 'R15.5 every checked integer operation of composite_surface has operands bounded by surface sizes, for all i32 src_rect / dst (no overflow)'],
+    'decides': ['R15.6 composite_surface returns without copying only behind an emptiness test', 'R15.1 clamp chain and emptiness guard', 'R15.2 placement consistency of clipping and copying', 'R15.3 isolation from transform/clip/layers', 'R15.4 wrapper semantics', 'R15.5 every checked integer operation of composite_surface has operands bounded by surface sizes, for all i32 src_rect / dst (no overflow)'],
     'does_not_decide': ['products of the sizes themselves (width*height of a surface that does not fit i32)', 'blend values (sw-composite)'],
     'assumptions': ['euclid Box2D::translate/intersection_unchecked/is_empty (external)', 'sw_composite::over_in_row(src, dst, alpha) = per-pixel over_in (external)'],
     'trusted_base': ['euclid 0.22.14', 'sw-composite 0.7.16'],
@@ -558,6 +558,89 @@ def r15_5(ctx):
         ctx.ok(R, key + '|arithmetic on unclamped arguments', b.loc(), 'every checked operation has operands bounded by surface sizes')
 
 
+def r15_6(ctx):
+    """composite_surface gives up without copying only on an emptiness test: every path from the entry to a return that
+    does not pass the row loop leaves a switch whose condition is `is_empty()` of a rectangle, a comparison of a
+    width/height (of a surface or of a rectangle's size) with zero, or the `None` of an intersection.  Any other test
+    (a point-containment test, a comparison of coordinates) also swallows requests whose clamped block is not empty"""
+    R = 'R15.6'
+    b = ctx.body(CS, R)
+    an = ctx.an(b)
+    cfg = an.cfg
+    key = 'draw_target::DrawTarget::composite_surface'
+    rc = row_call(ctx, b)
+    if rc is None:
+        ctx.fail(R, key + '|callback call', b.loc(), 'cannot find the f(src_row, dst_row) call (fail closed)')
+        return
+    loops = cfg.loops()
+    hdr = None
+    for h, bl in loops.items():
+        if rc[0] in bl and (hdr is None or len(bl) > len(loops[hdr])):
+            hdr = h
+    into_rows = set((p, hdr) for p in cfg.pred[hdr]) if hdr is not None else set((p, rc[0]) for p in cfg.pred[rc[0]])
+    def dim(t):
+        t = strip_all(strip_casts(t))
+        if t[0] == 'field' and t[2] in ('width', 'height'):
+            return True
+        if is_call(t, '::width') or is_call(t, '::height'):
+            return True
+        if t[0] == 'bin' and t[1] in ('Sub',) :
+            # max - min of one axis of a rectangle
+            return all(x[0] == 'field' and x[2] in ('x', 'y') for x in (strip_all(t[2]), strip_all(t[3])))
+        return False
+    def emptiness(c):
+        while c[0] == 'un' and c[1] == 'Not':
+            c = c[2]
+        c = strip_all(c)
+        if is_call(c, 'is_empty'):
+            return True
+        if c[0] == 'bin' and c[1] in ('Le', 'Lt', 'Eq', 'Ge', 'Gt', 'Ne'):
+            for x, z in ((c[2], c[3]), (c[3], c[2])):
+                if const_val(z) == 0 and dim(x):
+                    return True
+        if c[0] == 'bin' and c[1] in ('BitOr', 'BitAnd'):
+            return emptiness(c[2]) and emptiness(c[3])
+        if is_call(c, 'is_none') or is_call(c, 'is_some'):
+            return any(is_call(x, 'intersection') for x in subterms(c))
+        return False
+    allowed = set()
+    others = []
+    for si, t in b.terminators('switch'):
+        if si not in cfg.reach:
+            continue
+        c = an.term_at(si, len(b.blocks[si]['st']), t['o'])
+        tg = set(tt for _v, tt in t['targets']) | {t['otherwise']}
+        if t.get('ty') == 'bool':
+            if emptiness(c):
+                allowed |= set((si, x) for x in tg)
+            else:
+                others.append((si, c))
+        elif c[0] == 'discr' and any(is_call(x, 'intersection') for x in subterms(c)):
+            allowed |= set((si, x) for x in tg)
+    rets = [bi for bi, t in b.terminators('return') if bi in cfg.reach]
+    ctx.floor(R, 'emptiness tests ahead of the row loop', len(set(s for s, _ in allowed)), 1)
+    bad = [r for r in rets if not hazard_cut(cfg, r, allowed | into_rows)]
+    if not bad:
+        ctx.ok(R, key + '|gives up only when empty', b.loc(), 'every return that bypasses the row loop follows an emptiness test (%d tests)' % len(set(s for s, _ in allowed)))
+        return
+    # name the test that lets a request bypass the rows
+    culprit = None
+    for si, c in others:
+        tg = set(tt for _v, tt in b.blocks[si]['t']['targets']) | {b.blocks[si]['t']['otherwise']}
+        if all(hazard_cut(cfg, r, allowed | into_rows | set((si, x) for x in tg)) for r in bad):
+            culprit = (si, c)
+            break
+    where = b.loc(b.blocks[culprit[0]]['t'].get('sp')) if culprit else b.loc()
+    ctx.fail(R, key + '|gives up only when empty', where,
+             'composite_surface can return without copying a row although no emptiness test was passed%s: requests whose block inside both surfaces is not empty are dropped (e.g. a src_rect overhanging the source on its top or left side)'
+             % ((' — the path leaves through `%s`' % fmt(b, culprit[1])[:120]) if culprit else ''))
+
+
+def hazard_cut(cfg, site, edges):
+    import hazard
+    return hazard.cut_by_edges(cfg, site, edges)
+
+
 def r15_rows(ctx):
     """R15.1/R15.2 as one rule (for properties that need the row copies to stay inside both buffers)"""
     b = ctx.body(CS, 'R15.1')
@@ -580,4 +663,4 @@ def run(ctx):
         if info is not None:
             r15_2(ctx, b, rc, info)
     import engine
-    engine.run_rules(ctx, [lambda c: r15_3(c, b), r15_4, r15_5, dt.r03_6, dt.r03_1, dt.r03_10])
+    engine.run_rules(ctx, [lambda c: r15_3(c, b), r15_4, r15_5, r15_6, dt.r03_6, dt.r03_1, dt.r03_10])
